@@ -22,6 +22,7 @@ SHRINK_MIN = {"nchans": 1, "nbits": 1, "gulp": 1, "tfactor": 1, "ffactor": 1, "n
 WRITERS = T.NAMES + ["clean_rfi", "to_file", "to_tim", "to_spec"]
 # one execution = a whole enumeration of fault points: keep minimisation cheap
 SHRINK_EXECS, SHRINK_PER_CLASS, SHRINK_TOTAL, SHRINK_SECONDS = 24, 2, 4, 40
+RUN_WALL_S = 600  # a run enumerates thousands of fault points
 
 
 def warm() -> None:
